@@ -8,14 +8,10 @@ Import ListNotations.
 Open Scope string_scope."""
 CT = "hcase"
 
-# the signatures under which the witnesses of the `_refuted` theorems show up on the implementation
-REFUTED = {
-    "C09:direct-init_spectral_lines-first": "C09_direct_init_refuted",
-    "C09:private-init-before-public-touch:nsf": "C09_private_first_refuted",
-    "C09:private-init-before-public-touch:covalent_radius": "C09_private_first_refuted",
-    "C09:private-init-before-public-touch:crystal_structure": "C09_private_first_refuted",
-    "C09:private-init-before-public-touch:init_spectral_lines": "C09_private_first_refuted",
-}
+# signatures under which witnesses of `_refuted` theorems show up on the implementation: none since the repairs
+# 706f0ce / 9478875 (before them: C09:direct-init_spectral_lines-first and
+# C09:private-init-before-public-touch:{nsf,covalent_radius,crystal_structure,init_spectral_lines})
+REFUTED = {}
 
 MANIFEST = dict(
     text=("Model (Model/Attr.v): small-step semantics of the Python attribute protocol the loaders rely on - class-level "
@@ -23,21 +19,23 @@ MANIFEST = dict(
           "instance dictionaries of representative atoms of up to three tables, data-descriptor precedence on get and set, "
           "__getattr__ delegation Isotope/Ion -> element, delayed_load's getter/setter/clearprops - driven by the loader "
           "scripts that tools/gens/loaders.py regenerates from /repo (ordered attribute effects of the nine init functions, "
-          "the seven registrations, getfn/setfn statement lists; fail closed).  Theorems (Props/C09.v, axiom-free): every "
-          "history of public reads through element/isotope/ion, hasattr probes, submodule imports, calculator calls and "
-          "explicit init(elements) calls (except a first-touch init_spectral_lines(elements)) serves at every observation "
-          "what the canonical order serves; the same over the alphabet with a private table provided none of the four listed "
-          "private inits runs while its group is pending; the invariant is membership in per-group reachable sets computed "
-          "and checked closed by vm_compute (62 abstract states); the full-strength statement is REFUTED with concrete "
-          "shortest histories (direct init_spectral_lines first; nsf/covalent_radius/crystal_structure/init_spectral_lines "
-          "on a private table before the public first touch).  Tie: one fresh interpreter per history; all per-group "
-          "sequences of first touches up to length 2 (quick) / 3 (thorough), random histories, every submodule import; "
-          "every event's outcome compared with the model's run inside coqc; the digest comparison with the canonical order "
-          "is the property itself and yields the failing histories (minimised)."),
+          "the seven registrations, getfn/setfn statement lists; fail closed).  Theorems (Props/C09.v, axiom-free), at full "
+          "strength since the repairs 706f0ce and 9478875: over the whole alphabet - public reads through element/isotope/"
+          "ion, hasattr probes, submodule imports, calculator calls, EVERY explicit init(elements) including "
+          "init_spectral_lines, creation of a private table and every init on it at any time - every observation of the "
+          "public table is what the canonical order serves (C09_histories_canonical, C09_reads_canonical; no side condition: "
+          "C09_no_side_condition); the invariant is membership in per-group reachable sets computed and checked closed by "
+          "vm_compute (60 abstract states); the histories that broke the public table before the repairs are proved "
+          "canonical now (C09_former_witnesses_canonical).  Tie: one fresh interpreter per history; all per-group sequences "
+          "of first touches up to length 2 (quick) / 3 (thorough), random histories, every submodule import, in thorough one "
+          "witness history per (reachable abstract state, action) pair; every event's outcome compared with the model's run "
+          "inside coqc; the digest comparison with the canonical order is the property itself and yields minimised failing "
+          "histories."),
     note=("Modelled, not verified: CPython attribute lookup (descriptors, instance dict, __getattr__), import side effects; "
           "values are abstracted to their provenance (row data / class default / user value / computed) plus object identity; "
-          "one representative atom per {covered, uncovered} x {element, isotope, ion} (harness checks the coverage)."),
-    technique="Coq proof: invariant over a finite abstract state space (closure checked by vm_compute) + refutation witnesses; "
+          "one representative atom per {covered, uncovered} x {element, isotope, ion} (harness checks the coverage); "
+          "init(table, reload=True) is outside the alphabet."),
+    technique="Coq proof: invariant over a finite abstract state space (closure checked by vm_compute); "
               "differential run of the state-machine model against fresh interpreters",
     ref="DESIGN.md section 7 C09")
 
@@ -145,7 +143,7 @@ def _run(ctx):
     ctx.cov["histories"] = st["histories"]
     ctx.cov["distinct_nontrivial"] = st["distinct"]
     ctx.cov["samples"] = [meta[i][:8] for i in range(min(3, len(meta)))]
-    ctx.cov["reachable_abstract_states"] = dict(per_group=[3, 8, 8, 9, 8, 10, 8, 8], total=62)
+    ctx.cov["reachable_abstract_states"] = dict(per_group=[3, 8, 8, 7, 8, 10, 8, 8], total=60)
     ctx.assumptions = ["values are compared through an address-free deep view (digest)",
                        "representative atoms Fe, Rf, Fe-58, Fe-45, Rf-261 and their ions (coverage checked on the implementation)"]
     if st.get("cover_mismatch"):
